@@ -51,7 +51,7 @@ void orc_c02_loop_end(LoopRun &lr) {
         if (sd.rc != 0 || sd.kind == 3 || sd.in_flush) continue;
         if (sd.gseq > lr.end_gseq) continue;
         for (int e : sd.eligible) {
-            if (sd.delivered.count(e) || sd.dead.count(e) || has(sd.overflow, e)) continue;
+            if (sd.delivered.count(e) || sd.dead.count(e) || sd.unknown.count(e) || has(sd.overflow, e)) continue;
             Slot &r = W->slots[e];
             if (r.st != ST_RUNNING || r.last_non_running_gseq >= sd.gseq) continue;   // did not stay RUNNING
             if (r.batch_size || r.batch_timeout) continue;                             // being batched
@@ -225,13 +225,17 @@ void orc_c08_delivery(Delivery &d) {
         s.c08_last_send_id = sd.id;
         if (s.c08_pill_effect_gseq && sd.gseq > s.c08_pill_gseq && sd.gseq < s.c08_pill_effect_gseq)
             VIOL("C08", "C08:delivered-after-pill", "module slot %d received message #%ld which was sent after the poison pill that stopped it", d.slot, sd.id);
+        // a pill accepted for this module (and written to its pipe) lies before this message in the same FIFO
+        if (s.pills_pending > 0 && s.pending_pill_first_gseq && s.pending_pill_first_gseq < sd.gseq && !s.pill_overflowed && !s.pill_wildcard)
+            VIOL("C08", "C08:delivered-after-pending-pill", "module slot %d received message #%ld (sent at event %lu) although a poison pill accepted earlier (event %lu) has not stopped it yet",
+                 d.slot, sd.id, (unsigned long)sd.gseq, (unsigned long)s.pending_pill_first_gseq);
     }
 }
 
 void orc_c08_edge(int slot, int from, int to) {
     if (!on("C08")) return;
     Slot &s = W->slots[slot];
-    if (from == ST_RUNNING && to == ST_STOPPED && s.pills_pending > 0 && !frame_on_stack("stop", slot) && !frame_on_stack("dereg", slot) &&
+    if (from == ST_RUNNING && to == ST_STOPPED && s.pills_pending > 0 && !s.pill_wildcard && !frame_on_stack("stop", slot) && !frame_on_stack("dereg", slot) &&
         !frame_on_stack_any("ctx_dereg") && !s.start_refused_pending && (frame_on_stack_any("loop") || frame_on_stack_any("dispatch"))) {
         oracle_eval("C08.pill-barrier");
         R->ctr.probe("poison_pill_took_effect");
@@ -239,11 +243,10 @@ void orc_c08_edge(int slot, int from, int to) {
         s.c08_pill_gseq = pill_gseq;
         s.c08_pill_effect_gseq = R->gseq;
         for (auto &sd : W->sends) {
-            if (sd.rc != 0 || sd.kind == 3 || sd.gseq >= pill_gseq) continue;
+            if (sd.rc != 0 || sd.kind == 3 || sd.gseq >= pill_gseq || sd.in_flush) continue;   // (fate of sends made by final-flush handlers is unconstrained)
             if (!has(sd.eligible, slot) || has(sd.overflow, slot)) continue;
-            if (sd.delivered.count(slot)) continue;
+            if (sd.delivered.count(slot) || sd.dead.count(slot) || sd.unknown.count(slot)) continue;   // delivered, or (maybe) discarded at an earlier loop end
             if (sd.gseq <= s.c08_last_reset_gseq) continue;     // discarded by an earlier stop
-            if (s.batch_size || s.batch_timeout) continue;
             VIOL("C08", "C08:pill-overtook-message", "poison pill (event %lu) stopped module slot %d before message #%ld (sent earlier, at event %lu) was delivered", (unsigned long)pill_gseq, slot, sd.id, (unsigned long)sd.gseq);
         }
     }
